@@ -145,6 +145,12 @@ def run(ctx):
                 ast = ("C", ("C", ("S", ("d",)), ("c", "/")), body)
             elif lead == ".*":
                 ast = ("C", ("S", ("d",)), body)
+            if rng.random() < 0.3:
+                # a top-level, ungrouped alternation of two whole-path patterns (an earlier alternative may match a proper prefix of the path)
+                other = gen_ast(rng, rng.choice([1, 2, 3]))
+                lead_ast = {"r/": ("C", ("c", "r"), ("c", "/")), ".*/": ("C", ("S", ("d",)), ("c", "/")), ".*": ("S", ("d",))}.get(lead)
+                alt2 = ("C", lead_ast, other) if lead_ast else other
+                ast = ("A", ast, alt2) if rng.random() < 0.5 else ("A", alt2, ast)
             ty = rng.choice(TYPES)
             txt = show(ast, ty)
             if txt is None:
